@@ -325,10 +325,17 @@ Flatten(m) == LET RECURSIVE F(_) F(i) == IF i > Len(m) THEN <<>> ELSE m[i] \o F(
 \* Stream::iter: previous, current, new
 StreamIter(st) == Flatten(st.prev) \o Flatten(st.cur) \o Flatten(st.new)
 NonEmptyGens(m) == SelectSeq(m, LAMBDA g : Len(g) > 0)
-\* ValuesMatrix::slice_iter(skip): non-empty generations, the first `skip` of them dropped
-SliceFrom(m, skip) == LET ne == NonEmptyGens(m) IN IF skip >= Len(ne) THEN <<>> ELSE SubSeq(ne, skip + 1, Len(ne))
-StreamSlices(st, cur) == SliceFrom(st.prev, cur.p) \o SliceFrom(st.cur, cur.c) \o SliceFrom(st.new, cur.n)
-StreamCursor(st) == [p |-> Len(st.prev), c |-> Len(st.cur), n |-> Len(st.new)]
+\* StreamCursor: the number of values already seen in every generation of every matrix (a value restored from data is
+\* put into the generation recorded in the data, which may be any generation, not only the last ones);
+\* ValuesMatrix::unseen_slice_iter: per generation the values past the seen ones, empty slices dropped
+GenLens(m) == [i \in 1..Len(m) |-> Len(m[i])]
+UnseenFrom(m, seen) ==
+    NonEmptyGens([i \in 1..Len(m) |->
+        LET s0 == IF i <= Len(seen) THEN seen[i] ELSE 0
+            s == IF s0 > Len(m[i]) THEN Len(m[i]) ELSE s0
+        IN SubSeq(m[i], s + 1, Len(m[i]))])
+StreamSlices(st, cur) == UnseenFrom(st.prev, cur.p) \o UnseenFrom(st.cur, cur.c) \o UnseenFrom(st.new, cur.n)
+StreamCursor(st) == [p |-> GenLens(st.prev), c |-> GenLens(st.cur), n |-> GenLens(st.new)]
 
 \* add_value_to_generation(value, idx) with 0-based idx (resize with empty generations)
 AddToGen(m, val, idx) ==
@@ -983,7 +990,7 @@ ExecFoldStream(i, ctx) ==
     IF Failed(c0) THEN c0
     ELSE
     LET fid == c0.fid
-        gens == StreamSlices(g.st, [p |-> 0, c |-> 0, n |-> 0])
+        gens == StreamSlices(g.st, [p |-> <<>>, c |-> <<>>, n |-> <<>>])
         cursor == StreamCursor(g.st)
         c1 == IF Len(gens) > 0 THEN SetStream(c0, i.it.n, AddEmptyNewGen(g.st)) ELSE c0
         r == FoldBatches(i, c1, fid, gens, cursor, FALSE)
